@@ -73,23 +73,23 @@ def hk (cls sym : String) : String := ((Gen.handKeyValues.lookup cls).bind (fun 
 /-- `DefaultObjectLoader.identify_object` on a plumpy class -/
 def cid (cls : String) : String := (Gen.loaderIds.lookup cls).getD cls
 
-def futCls := "plumpy.persistence.SavableFuture"
-def ehCls := "plumpy.event_helper.EventHelper"
-def procCls := "plumpy.processes.Process"
-def chainCls := "plumpy.workchains.WorkChain"
-def ctxCls := "plumpy.mixins.ContextMixin"
-def createdCls := "plumpy.process_states.Created"
-def runningCls := "plumpy.process_states.Running"
-def waitingCls := "plumpy.process_states.Waiting"
-def wcWaitingCls := "plumpy.workchains.Waiting"
-def finishedCls := "plumpy.process_states.Finished"
-def exceptedCls := "plumpy.process_states.Excepted"
-def killedCls := "plumpy.process_states.Killed"
-def fnStepCls := "plumpy.workchains._FunctionStepper"
-def retStepCls := "plumpy.workchains._ReturnStepper"
-def blockStepCls := "plumpy.workchains._BlockStepper"
-def ifStepCls := "plumpy.workchains._IfStepper"
-def whileStepCls := "plumpy.workchains._WhileStepper"
+abbrev futCls : String := "plumpy.persistence.SavableFuture"
+abbrev ehCls : String := "plumpy.event_helper.EventHelper"
+abbrev procCls : String := "plumpy.processes.Process"
+abbrev chainCls : String := "plumpy.workchains.WorkChain"
+abbrev ctxCls : String := "plumpy.mixins.ContextMixin"
+abbrev createdCls : String := "plumpy.process_states.Created"
+abbrev runningCls : String := "plumpy.process_states.Running"
+abbrev waitingCls : String := "plumpy.process_states.Waiting"
+abbrev wcWaitingCls : String := "plumpy.workchains.Waiting"
+abbrev finishedCls : String := "plumpy.process_states.Finished"
+abbrev exceptedCls : String := "plumpy.process_states.Excepted"
+abbrev killedCls : String := "plumpy.process_states.Killed"
+abbrev fnStepCls : String := "plumpy.workchains._FunctionStepper"
+abbrev retStepCls : String := "plumpy.workchains._ReturnStepper"
+abbrev blockStepCls : String := "plumpy.workchains._BlockStepper"
+abbrev ifStepCls : String := "plumpy.workchains._IfStepper"
+abbrev whileStepCls : String := "plumpy.workchains._WhileStepper"
 
 /-! ### object loaders -/
 structure Loader where
@@ -195,12 +195,17 @@ def loadMembers {α} (b : Bundle) (set : α → String → Loaded → Except Err
 /-- keys written by hand by the class's own `save_instance_state`: for every symbolic key of the generated table the
 model supplies `some (some v)` (written), `some none` (condition false, not written) or `none` (a key this model
 does not know: poison) -/
+def bsetOpt (b : Bundle) (k : String) : Option BVal → Bundle
+  | some v => bset b k v
+  | none => b
+
+def handStep (cls : String) (val : String → Option (Option BVal)) (b : Bundle) (sym : String) : Bundle :=
+  match val sym with
+  | some o => bsetOpt b (hk cls sym) o
+  | none => bset b sym (.poison (.unknownKey sym))
+
 def saveHand (cls : String) (val : String → Option (Option BVal)) (b : Bundle) : Bundle :=
-  (handSyms cls).foldl (fun b sym =>
-    match val sym with
-    | some (some v) => bset b (hk cls sym) v
-    | some none => b
-    | none => bset b sym (.poison (.unknownKey sym))) b
+  (handSyms cls).foldl (handStep cls val) b
 
 /-- the `super().save_instance_state` chain of `cls`: base-most class first -/
 def saveChain (cls : String) (val : String → String → Option (Option BVal)) (b : Bundle) : Bundle :=
@@ -558,12 +563,16 @@ def procMember (E : Env) (ctx : Option Loader) (v : View) : String → MVal
   | "_event_helper" => .savable (saveEH E ctx v.eh)
   | _ => .missing
 
+/-- `if self.outputs: out_state[OUTPUTS] = self.encode_input_args(self.outputs)` -/
+def encodeOutputs (l : List (String × Val)) : Option BVal :=
+  if l.isEmpty then none else some (.dict (l.map (fun kv => (kv.1, plainB kv.2))))
+
 def procHand (E : Env) (C : Cls) (v : View) (c sym : String) : Option (Option BVal) :=
   if c = procCls then
     if sym = "_state" then some (some (.dict (saveState E v.state)))
     else if sym = "INPUTS_RAW" then some (v.inputsRaw.map plainB)
     else if sym = "INPUTS_PARSED" then some (v.inputsParsed.map plainB)
-    else if sym = "OUTPUTS" then some (if v.outputs.isEmpty then none else some (.dict (v.outputs.map (fun kv => (kv.1, plainB kv.2)))))
+    else if sym = "OUTPUTS" then some (encodeOutputs v.outputs)
     else none
   else if c = ctxCls ∧ sym = "CONTEXT" then some (v.chain.map (fun ch => plainB ch.ctx))
   else if c = chainCls ∧ sym = "_STEPPER_STATE" then
@@ -596,18 +605,38 @@ def setProcMember (L : Loader) (v : View) (name : String) (x : Loaded) : Except 
      | .savable sb => do loadSavable L ehCls sb; let e ← loadEH sb; .ok { v with eh := e })
   else .error (.attribute name)
 
-def optPlain (b : Bundle) (k : String) : Except Err (Option Val) :=
-  match bget b k with
+def decodeOpt (k : String) : Option BVal → Except Err (Option Val)
   | none => .ok none
   | some (.plain v) => .ok (some v)
   | some (.poison e) => .error e
   | some (.dict _) => .error (.foreign k)
+
+def optPlain (b : Bundle) (k : String) : Except Err (Option Val) := decodeOpt k (bget b k)
 
 def unplain : List (String × BVal) → Except Err (List (String × Val))
   | [] => .ok []
   | (k, .plain v) :: r => do let r' ← unplain r; .ok ((k, v) :: r')
   | (_, .poison e) :: _ => .error e
   | (k, .dict _) :: _ => .error (.foreign k)
+
+def decodeOutputs : Option BVal → Except Err (List (String × Val))
+  | none => .ok []
+  | some (.dict o) => unplain o
+  | some (.poison e) => .error e
+  | some (.plain _) => .error (.foreign "OUTPUTS")
+
+def decodeDict (k : String) : Option BVal → Except Err Bundle
+  | some (.dict sb) => .ok sb
+  | some (.poison e) => .error e
+  | some (.plain _) => .error (.foreign k)
+  | none => .error (.keyMissing k)
+
+/-- `WorkChain.load_instance_state`: no stepper state, or `get_outline().recreate_stepper(stepper_state, self)` -/
+def decodeStepper (E : Env) (is : Block) : Option BVal → Except Err (Option St)
+  | none => .ok none
+  | some (.dict sb) => do let s ← restoreTop E is sb; .ok (some s)
+  | some (.poison e) => .error e
+  | some (.plain _) => .error (.foreign "stepper_state")
 
 def blankView (st : StateV) : View :=
   { pid := .none, ctime := .none, status := .none, prePaused := .none, paused := none, future := .pending,
@@ -621,20 +650,12 @@ def load (E : Env) (C : Cls) (ctx : Option Loader) (b : Bundle) : Except Err Vie
   let c ← loadClass L b
   if c ≠ C.name then .error (.foreign "process class") else
   -- Process.load_instance_state
-  let sb ← (match bget b (hk procCls "_state") with
-    | some (.dict sb) => .ok sb
-    | some (.poison e) => .error e
-    | some (.plain _) => .error (.foreign "_state")
-    | none => .error (.keyMissing "_state") : Except Err Bundle)
+  let sb ← decodeDict "_state" (bget b (hk procCls "_state"))
   let st ← loadState E sb
   let v ← loadMembers b (setProcMember L) (members C.base) (blankView st)
   let raw ← optPlain b (hk procCls "INPUTS_RAW")
   let parsed ← optPlain b (hk procCls "INPUTS_PARSED")
-  let outs ← (match bget b (hk procCls "OUTPUTS") with
-    | none => .ok []
-    | some (.dict o) => unplain o
-    | some (.poison e) => .error e
-    | some (.plain _) => .error (.foreign "OUTPUTS") : Except Err (List (String × Val)))
+  let outs ← decodeOutputs (bget b (hk procCls "OUTPUTS"))
   let v := { v with inputsRaw := raw, inputsParsed := parsed, outputs := outs }
   match C.outline with
   | none => .ok v
@@ -645,13 +666,8 @@ def load (E : Env) (C : Cls) (ctx : Option Loader) (b : Bundle) : Except Err Vie
     | none => .error (.attribute "_context")
     | some cx =>
       -- WorkChain.load_instance_state
-      match bget b (hk chainCls "_STEPPER_STATE") with
-      | none => .ok { v with chain := some { ctx := cx, stepper := none } }
-      | some (.dict sb) => do
-        let s ← restoreTop E is sb
-        .ok { v with chain := some { ctx := cx, stepper := some s } }
-      | some (.poison e) => .error e
-      | some (.plain _) => .error (.foreign "stepper_state")
+      let s ← decodeStepper E is (bget b (hk chainCls "_STEPPER_STATE"))
+      .ok { v with chain := some { ctx := cx, stepper := s } }
 
 /-! ### the three media (trusted base: identity on bundles, exercised by the correspondence check) -/
 namespace Medium
